@@ -18,6 +18,9 @@ type Font struct {
 	Tag string // unique BaseFont tag
 	// ToUnicode: code (1 or 2 bytes, as string) -> unicode text; nil for fonts without ToUnicode
 	ToUnicode map[string]string
+	// Widths, when non-nil, is written as /FirstChar 32 /LastChar 255 /Widths [...]
+	// (simple fonts only): glyph widths in 1/1000 text space units.
+	Widths []int
 }
 
 // Show is one text-showing step: a string in a font at a baseline.
@@ -132,6 +135,7 @@ type Layout struct {
 	ContentsArrayIndirect bool // /Contents array as an indirect object
 	XRefPredictor bool  // xref streams use PNG predictor 12
 	GapsAsFree bool
+	ObjStmExtends bool // chain object streams of a revision with /Extends
 }
 
 // Built is the result of building a file.
@@ -411,6 +415,18 @@ func ToUnicodeProgram(m map[string]string, codeBytes int, eol string) []byte {
 func (b *builder) fontObjects(f Font, objs map[string]any) {
 	key := fmt.Sprintf("font:%d", f.ID)
 	base := Name("VF" + f.Tag)
+	defer func() {
+		if f.Widths != nil && f.Kind != "type0-identity" {
+			if d, ok := objs[key].(Dict); ok {
+				w := Arr{}
+				for _, x := range f.Widths {
+					w = append(w, x)
+				}
+				d = d.Without("FirstChar").Without("LastChar")
+				objs[key] = append(d, KV{"FirstChar", 32}, KV{"LastChar", 32 + len(f.Widths) - 1}, KV{"Widths", w})
+			}
+		}
+	}()
 	switch f.Kind {
 	case "t1-winansi":
 		objs[key] = Dict{{"Type", Name("Font")}, {"Subtype", Name("Type1")}, {"BaseFont", Name("Helvetica")}, {"Encoding", Name("WinAnsiEncoding")}, {"VerifTag", Name(f.Tag)}}
@@ -704,6 +720,10 @@ func Build(seed int64, lay Layout, docs []*Doc) *Built {
 			}
 			if b.r.Intn(3) > 0 {
 				rv.ObjStmFilters = []FilterStage{{Kind: "Fl"}}
+			}
+			if lay.ObjStmExtends && len(rv.ObjStmNums) > 1 {
+				rv.ObjStmExtends = true
+				b.feat["objstm.extends"] = true
 			}
 		}
 		if xrefStream {
